@@ -10,13 +10,13 @@ theorem stepNetNew_inv {g : G} (h : Inv g) (n : Nat) (name : String) : Inv (step
   unfold stepNetNew
   split
   · exact h
-  · inv_groups h
+  · inv_groups h []
 
 theorem stepNetAddBus_inv {g : G} (h : Inv g) (n b : Nat) : Inv (stepNetAddBus g n b).1 := by
   unfold stepNetAddBus
   repeat' split
   all_goals first | exact h | skip
-  inv_groups h
+  inv_groups h []
 
 /-- a bus listed by a network: the ground facts about it -/
 theorem NetI.listed {N : AMap NetE} {B : AMap BusE} (h : NetI N B) {n b : Nat} {net : NetE} {bus : BusE}
@@ -37,25 +37,25 @@ theorem stepNetRemoveBus_inv {g : G} (h : Inv g) (n b : Nat) : Inv (stepNetRemov
   rename_i _ net hn hhas _ bus hb
   inv_norm
   have s := h.net.listed hn hb hhas
-  inv_groups h
+  inv_groups h []
 
 theorem stepBusNew_inv {g : G} (h : Inv g) (b : Nat) (name : String)
     (hx : g.nodes.get b = none ∧ g.msgs.get b = none ∧ g.sigs.get b = none) : Inv (stepBusNew g b name).1 := by
   unfold stepBusNew
   repeat' split
   all_goals first | exact h | skip
-  inv_groups h
+  inv_groups h []
 
 theorem stepBusRename_inv {g : G} (h : Inv g) (b : Nat) (name : String) : Inv (stepBusRename g b name).1 := by
   unfold stepBusRename
   repeat' split
   all_goals first | exact h | skip
-  · inv_groups h
+  · inv_groups h []
   · rename_i _ bus hb hne _ n hp _ net hn hfree
     have s1 : busParent g.buses b = some n := by rw [busParent_of_get hb]; exact hp
     have s2 := h.net.b2 s1
     have s3 := h.net.n2 s1 (busName_of_get hb)
-    inv_groups h
+    inv_groups h []
 
 /-- the values of a network's `buses` registry are exactly the buses reporting it as parent -/
 theorem NetI.mem_vals {N : AMap NetE} {B : AMap BusE} (h : NetI N B) {n : Nat} {net : NetE}
@@ -75,6 +75,6 @@ theorem stepNetRemoveAllBuses_inv {g : G} (h : Inv g) (n : Nat) : Inv (stepNetRe
   all_goals first | exact h | skip
   rename_i _ net hn
   have hv := h.net.mem_vals hn
-  inv_groups h
+  inv_groups h []
 
 end Acme.Graph
